@@ -275,11 +275,9 @@ func (e *Env) reportWiring(rc, lower *reportCtor, nf *nameFuncs) {
 		if used[fv] {
 			continue
 		}
-		if _, set := rc.fields[fv]; set {
-			c.Undecided("level-fields", who+" field "+fv.Name(), e.P.Pos(rc.pos[fv]), "report field the wiring rules do not know")
-		} else {
-			c.Fail("level-fields", who+" field "+fv.Name(), e.P.Pos(rc.fn.Pos()), "report field is never filled")
-		}
+		// a field the property does not name (it speaks of title/value/version/vector/score/severity fields):
+		// recorded, not judged
+		c.Ok("other-report-fields", who+" field "+fv.Name(), e.P.Pos(rc.fn.Pos()), "not one of the fields the property names; not examined")
 	}
 }
 
